@@ -14,8 +14,8 @@ using vf::tracked_mo;
 
 enum { FA_VALUE = 0, FA_EXC = 1, FA_DROP = 2, FA_NONE = 3 };
 inline const char *fa_name(int a) { static const char *n[] = {"value", "exception", "drop", "none"}; return n[a]; }
-enum { FW_CORO = 0, FW_HASVALUE = 1, FW_WAIT = 2, FW_SYNC = 3, FW_CALLBACK = 4, FW_POLL = 5 };
-inline const char *fw_name(int a) { static const char *n[] = {"co_await", "co_await has_value", "wait()", "sync()+value()", "callback awaiter", "poll ready()"}; return n[a]; }
+enum { FW_CORO = 0, FW_HASVALUE = 1, FW_WAIT = 2, FW_SYNC = 3, FW_CALLBACK = 4, FW_POLL = 5, FW_FORCE_SYNC = 6, FW_NKINDS = 7 };
+inline const char *fw_name(int a) { static const char *n[] = {"co_await", "co_await has_value", "wait()", "sync()+value()", "callback awaiter", "poll ready()", "force_sync()+value()"}; return n[a]; }
 
 template <typename T> const char *ftype_name() {
     if constexpr (std::is_void_v<T>) return "void";
@@ -135,6 +135,12 @@ template <typename T> void f_waiter(fut_round<T> &X, int wi) {
         rec.ready_at_release = X.f->ready();
         rec.released.fetch_add(1, std::memory_order_relaxed);
         break;
+    case FW_FORCE_SYNC: // the blocking form that is also allowed inside coroutines (a separate implementation in the library)
+        X.f->force_sync();
+        rec.ready_at_release = X.f->ready();
+        rec.o = read_future(*X.f, X.target, 4);
+        rec.released.fetch_add(1, std::memory_order_relaxed);
+        break;
     case FW_SYNC:
         X.f->sync();
         rec.ready_at_release = X.f->ready();
@@ -187,7 +193,7 @@ void future_round(const vf::opts &o, vf::report &R, vf::team &T_, uint64_t rn, u
         desc += std::string(fa_name(X.action[c])) + ",";
     }
     desc += " W:";
-    for (int w = 0; w < X.nwait; w++) { X.wkind[w] = (int)r.below(6); desc += std::string(fw_name(X.wkind[w])) + ","; }
+    for (int w = 0; w < X.nwait; w++) { X.wkind[w] = (int)r.below(FW_NKINDS); desc += std::string(fw_name(X.wkind[w])) + ","; }
     std::string plan = T_.plan_by([&](int tid) { return tid < X.ncont ? future_sites_resolver() : future_sites_waiter(); }, r, X.ncont + X.nwait);
     vf::set_crash_ctx(R.prop.c_str(), "future_mt", o.seed, rn, (desc + " ; " + plan).c_str());
     T_.round([&](int tid) {
@@ -324,7 +330,7 @@ void future_async_round(const vf::opts &o, vf::report &R, vf::team &T_, uint64_t
     X.ncont = 1;
     X.nwait = 1 + (int)r.below((uint32_t)std::min(3, T_.n - 1));
     std::string desc = std::string("async<") + ftype_name<T>() + "> body " + fa_name(A.action) + " gate" + std::to_string(A.gate_kind) + " W:";
-    for (int w = 0; w < X.nwait; w++) { X.wkind[w] = (int)r.below(6); desc += std::string(fw_name(X.wkind[w])) + ","; }
+    for (int w = 0; w < X.nwait; w++) { X.wkind[w] = (int)r.below(FW_NKINDS); desc += std::string(fw_name(X.wkind[w])) + ","; }
     std::string plan = T_.plan_by([&](int tid) { return tid == 0 ? future_sites_resolver() : future_sites_waiter(); }, r, 1 + X.nwait);
     vf::set_crash_ctx(R.prop.c_str(), "future_async_mt", o.seed, rn, (desc + " ; " + plan).c_str());
     T_.round([&](int tid) {
